@@ -26,7 +26,20 @@ func PoisonFields(obj any, fields []string) (done, missing []string) {
 		return nil, fields
 	}
 	s := v.Elem()
-	seen := map[uintptr]bool{}
+	seen := map[uintptr]bool{v.Pointer(): true} // never walk back into the object itself (e.g. mbIterator.enc)
+	// Slice fields that are NOT to be poisoned protect their elements: a poisoned
+	// neighbour that shares the slab is overwritten only up to where they begin.
+	listed := map[string]bool{}
+	for _, name := range fields {
+		listed[name] = true
+	}
+	protected = protected[:0]
+	for i := 0; i < s.NumField(); i++ {
+		if !listed[s.Type().Field(i).Name] {
+			protectSlices(s.Field(i), 0)
+		}
+	}
+	defer func() { protected = protected[:0] }()
 	for _, name := range fields {
 		f := s.FieldByName(name)
 		if !f.IsValid() {
@@ -41,6 +54,43 @@ func PoisonFields(obj any, fields []string) (done, missing []string) {
 }
 
 const poisonMaxDepth = 8
+
+// protected: [start, end) address ranges of the elements of slice fields that must
+// keep their contents (set per PoisonFields call; the harness is single-threaded here).
+var protected [][2]uintptr
+
+func protectSlices(v reflect.Value, depth int) {
+	switch v.Kind() {
+	case reflect.Slice:
+		if !v.IsNil() && v.Len() > 0 {
+			p := v.Pointer()
+			protected = append(protected, [2]uintptr{p, p + uintptr(v.Len())*v.Type().Elem().Size()})
+		}
+	case reflect.Array:
+		if depth < 2 && v.Type().Elem().Kind() == reflect.Slice {
+			for i := 0; i < v.Len(); i++ {
+				protectSlices(v.Index(i), depth+1)
+			}
+		}
+	}
+}
+
+// capLimit returns how many elements of the slice starting at p (n elements up to its
+// capacity, of size sz, the first ln of them within len) may be overwritten without
+// touching a protected range that starts at or after the end of its len part.
+func capLimit(p uintptr, ln, n int, sz uintptr) int {
+	if sz == 0 {
+		return n
+	}
+	lenEnd := p + uintptr(ln)*sz
+	end := p + uintptr(n)*sz
+	for _, r := range protected {
+		if r[0] >= lenEnd && r[0] < end {
+			end = r[0]
+		}
+	}
+	return int((end - p) / sz)
+}
 
 // poisonToCap: overwrite slice elements up to cap() (default) or only up to len().
 // Several pooled buffers are sub-slices of one slab, so poisoning one field to its
@@ -102,7 +152,7 @@ func poison(v reflect.Value, scalars, top bool, seen map[uintptr]bool, depth int
 		}
 		full := v
 		if poisonToCap {
-			full = v.Slice(0, v.Cap())
+			full = v.Slice(0, capLimit(v.Pointer(), v.Len(), v.Cap(), v.Type().Elem().Size()))
 		}
 		if full.Len() == 0 {
 			return
